@@ -2,6 +2,7 @@ package main
 
 import (
 	"context"
+	"database/sql"
 	"database/sql/driver"
 	"encoding/json"
 	"flag"
@@ -478,11 +479,16 @@ type l5ConcObs struct {
 	// transaction's; TxRuns: statements issued through transactions
 	// DupIDs: live Statements sharing a cache id; StmtEntriesLeft: Statement entries in the
 	// cache after everything was dropped and collected
-	DupIDs          int    `json:"dupIDs"`
-	StmtEntriesLeft int    `json:"stmtEntriesLeft"`
-	TxStray         int    `json:"txStray"`
-	TxRuns          int    `json:"txRuns"`
-	Panic           string `json:"panic,omitempty"`
+	DupIDs          int `json:"dupIDs"`
+	StmtEntriesLeft int `json:"stmtEntriesLeft"`
+	TxStray         int `json:"txStray"`
+	TxRuns          int `json:"txRuns"`
+	// DBStray: DBs created at the same moment that share a cache id, or whose first query
+	// did not reach their own driver; TxAfterEnd: Query objects of a finished transaction
+	// that ran without an error
+	DBStray    int    `json:"dbStray"`
+	TxAfterEnd int    `json:"txAfterEnd"`
+	Panic      string `json:"panic,omitempty"`
 }
 
 func runL5Conc(r *rng.R, threads, perThread int) (obs *l5ConcObs) {
@@ -551,13 +557,81 @@ func runL5Conc(r *rng.R, threads, perThread int) (obs *l5ConcObs) {
 		db    *sqlair.DB
 		state *fakedrv.State
 	}
-	dbs := make([]*dbT, nD)
-	for i := range dbs {
+	// the DBs of the run, and some fifty more, are created at the same moment by sixteen
+	// goroutines: every DB is a cache key of its own
+	const moreDBs = 48
+	all := make([]*dbT, nD+moreDBs)
+	{
+		startD := make(chan struct{})
+		var wgd sync.WaitGroup
+		for g := 0; g < 16; g++ {
+			wgd.Add(1)
+			go func(g int) {
+				defer wgd.Done()
+				type pre struct {
+					sqldb *sql.DB
+					st    *fakedrv.State
+				}
+				var mine []pre
+				for i := g; i < len(all); i += 16 {
+					sqldb, st := fakedrv.Open()
+					sqldb.SetMaxOpenConns(4)
+					st.SetScript(fakedrv.Script{Columns: rowCols, Rows: nil})
+					mine = append(mine, pre{sqldb, st})
+				}
+				<-startD
+				for k, i := 0, g; i < len(all); k, i = k+1, i+16 {
+					all[i] = &dbT{sqlair.NewDB(mine[k].sqldb), mine[k].st}
+				}
+			}(g)
+		}
+		close(startD)
+		wgd.Wait()
+		seenDB := map[uint64]bool{}
+		for _, d := range all {
+			if hooksAvailable {
+				id := hookDBID(d.db)
+				if seenDB[id] {
+					obs.DBStray++
+				}
+				seenDB[id] = true
+			}
+		}
+		// the first query of every additional DB reaches that DB's own driver
+		for _, d := range all[nD:] {
+			ints, strs := l5Args(1)
+			l5All(d.db.Query(context.Background(), stmts[0], ints, strs), noOut[stmts[0]])
+			seen := false
+			for _, e := range d.state.Events() {
+				if e.Kind == "query" || e.Kind == "exec" {
+					seen = true
+				}
+			}
+			if !seen {
+				obs.DBStray++
+			}
+		}
+	}
+	dbs := all[:nD]
+	// two DB values over one sql.DB are two cache keys as well: what one of them prepared
+	// goes away with it, the other keeps working
+	func() {
 		sqldb, st := fakedrv.Open()
 		sqldb.SetMaxOpenConns(4)
 		st.SetScript(fakedrv.Script{Columns: rowCols, Rows: nil})
-		dbs[i] = &dbT{sqlair.NewDB(sqldb), st}
-	}
+		a, b := sqlair.NewDB(sqldb), sqlair.NewDB(sqldb)
+		ints, strs := l5Args(1)
+		l5All(a.Query(context.Background(), stmts[0], ints, strs), noOut[stmts[0]])
+		l5All(b.Query(context.Background(), stmts[0], ints, strs), noOut[stmts[0]])
+		a = nil
+		collect(func() string { return fmt.Sprint(len(st.Events())) })
+		if err := l5All(b.Query(context.Background(), stmts[0], ints, strs), noOut[stmts[0]]); err != nil && strings.Contains(err.Error(), "statement is closed") {
+			obs.ClosedErrs++
+			obs.Errors = append(obs.Errors, "second DB value over the same sql.DB, after the first was collected: "+err.Error())
+		}
+		runtime.KeepAlive(b)
+		all = append(all, &dbT{nil, st})
+	}()
 	var mu sync.Mutex
 	var wg sync.WaitGroup
 	seeds := make([]*rng.R, threads)
@@ -591,6 +665,8 @@ func runL5Conc(r *rng.R, threads, perThread int) (obs *l5ConcObs) {
 						continue
 					}
 					nq := 1 + tr.Intn(4)
+					var lastTQ *sqlair.Query
+					lastNoOut := false
 					for k := 0; k < nq; k++ {
 						s := stmts[tr.Intn(nS)]
 						if k > 0 && tr.Chance(1, 3) {
@@ -601,7 +677,13 @@ func runL5Conc(r *rng.R, threads, perThread int) (obs *l5ConcObs) {
 						}
 						ctx := context.WithValue(context.Background(), fakedrv.CtxKey{}, fmt.Sprintf("d%d-k%d-x%d", di+1, shape, txid))
 						ints, strs := l5Args(shape)
-						err := l5All(tx.Query(ctx, s, ints, strs), noOut[s])
+						tq := tx.Query(ctx, s, ints, strs)
+						err := l5All(tq, noOut[s])
+						if err == nil && tr.Chance(1, 3) {
+							// the same Query object once more: still the transaction's
+							l5All(tq, noOut[s])
+						}
+						lastTQ, lastNoOut = tq, noOut[s]
 						if k == 0 && tr.Chance(1, 2) {
 							// the same shape on the DB in between: the pair's cache entry changes
 							// while the transaction is open
@@ -628,6 +710,14 @@ func runL5Conc(r *rng.R, threads, perThread int) (obs *l5ConcObs) {
 						tx.Commit()
 					} else {
 						tx.Rollback()
+					}
+					if lastTQ != nil && tr.Chance(1, 2) {
+						// a Query object of the finished transaction: it fails, nothing runs
+						if e := l5All(lastTQ, lastNoOut); e == nil {
+							mu.Lock()
+							obs.TxAfterEnd++
+							mu.Unlock()
+						}
 					}
 					continue
 				}
@@ -714,7 +804,7 @@ func runL5Conc(r *rng.R, threads, perThread int) (obs *l5ConcObs) {
 	}
 	// drop everything and collect
 	states := []*fakedrv.State{}
-	for _, d := range dbs {
+	for _, d := range all {
 		states = append(states, d.state)
 	}
 	for i := range stmts {
@@ -723,7 +813,7 @@ func runL5Conc(r *rng.R, threads, perThread int) (obs *l5ConcObs) {
 	for i := range extra {
 		extra[i] = nil
 	}
-	for _, d := range dbs {
+	for _, d := range all {
 		d.db = nil
 	}
 	collect(func() string {
